@@ -31,6 +31,12 @@ def run(ctx):
     files = ["hypergraphx/linalg/linalg.py", "hypergraphx/utils/labeling.py"]
     ctx.add_sites(res, ctx.sites(rules=("C-SIG", "K-ARG", "K-KEY-LOCAL", "K-MEM"), files=files))
 
+    # the per-order matrices are built on get_edges(order=..., subhypergraph=True, keep_isolated_nodes=...): its node set
+    # decides the rows, so its must-flow rules are part of this property too
+    from .. import rules_extract as X
+
+    res.rules.update({"X-NODES": "the per-order sub-hypergraph keeps ALL nodes when keep_isolated_nodes is set (rows of the per-order matrices)", "X-WEIGHT": "weights reach the per-order sub-hypergraph", "X-FLAG": "same weightedness", "X-EMETA": "(shared with C05)", "X-NMETA": "(shared with C05)", "X-DELEG": "(shared with C05)"})
+    X.check_extraction(ctx, res, "Hypergraph.get_edges")
     # ---- K-ENC
     v = ctx.view("linalg.binary_incidence_matrix")
     f = v.fi.short
